@@ -103,7 +103,7 @@ func genAddr(r *sim.Rand) AddrSpec {
 }
 
 func (p *c05) Gen(seed uint64, i int, tier string) (any, bool) {
-	n := 20000
+	n := 150000
 	if tier == "thorough" {
 		n = 1000000
 	}
